@@ -173,8 +173,62 @@ def documented(repo_root):
     return cats
 
 
+# site functions that are not action methods themselves: the public directives (action methods) through which they run
+HELPERS = {
+    'pyramid/config/views.py:StaticURLInfo.add': ['pyramid/config/views.py:ViewsConfiguratorMixin.add_static_view'],
+    'pyramid/config/views.py:StaticURLInfo.add_cache_buster': ['pyramid/config/views.py:ViewsConfiguratorMixin.add_cache_buster'],
+    'pyramid/config/tweens.py:TweensConfiguratorMixin._add_tween': ['pyramid/config/tweens.py:TweensConfiguratorMixin.add_tween'],
+    'pyramid/config/predicates.py:PredicateConfiguratorMixin._add_predicate': [
+        'pyramid/config/views.py:ViewsConfiguratorMixin.add_view_predicate',
+        'pyramid/config/routes.py:RoutesConfiguratorMixin.add_route_predicate',
+        'pyramid/config/adapters.py:AdaptersConfiguratorMixin.add_subscriber_predicate'],
+}
+
+
+def _quals(tree):
+    out = {}
+
+    def walk(node, prefix, chain):
+        for n in ast.iter_child_nodes(node):
+            if isinstance(n, (ast.FunctionDef, ast.AsyncFunctionDef, ast.ClassDef)):
+                q = prefix + n.name
+                out[id(n)] = (q, chain)
+                walk(n, q + '.', chain + ([n] if isinstance(n, ast.FunctionDef) else []))
+            else:
+                walk(n, prefix, chain)
+    walk(tree, '', [])
+    return out
+
+
+def _is_action_method(fn):
+    return any(ast.unparse(d) == 'action_method' for d in fn.decorator_list)
+
+
+def _registered(outer, var):
+    """does `var` reach the `introspectables=` argument of an `.action(..)` call of the (outermost) directive function?"""
+    carriers = set()
+    for n in ast.walk(outer):
+        if isinstance(n, ast.Call) and isinstance(n.func, ast.Attribute) and n.func.attr == 'action':
+            for kw in n.keywords:
+                if kw.arg == 'introspectables':
+                    if var in _names(kw.value):
+                        return True
+                    if isinstance(kw.value, ast.Name):
+                        carriers.add(kw.value.id)
+    for n in ast.walk(outer):
+        if isinstance(n, ast.Assign) and any(isinstance(t, ast.Name) and t.id in carriers for t in n.targets) \
+                and var in _names(n.value):
+            return True
+        if isinstance(n, ast.Call) and isinstance(n.func, ast.Attribute) and isinstance(n.func.value, ast.Name) \
+                and n.func.value.id in carriers and n.func.attr in ('append', 'extend', 'insert') \
+                and any(var in _names(a) for a in n.args):
+            return True
+    return False
+
+
 def extract(src_root):
     sites, problems = [], []
+    trees = {}
     for base in FILES:
         rel = 'pyramid/config/%s.py' % base
         path = os.path.join(src_root, rel)
@@ -183,6 +237,15 @@ def extract(src_root):
         except (OSError, SyntaxError) as e:
             problems.append('cannot parse %s: %s' % (rel, e))
             continue
+        trees[rel] = tree
+    allquals = {rel: _quals(tree) for rel, tree in trees.items()}
+    byqual = {'%s:%s' % (rel, q): None for rel in trees for q, _ in allquals[rel].values()}
+    for rel, tree in trees.items():
+        for n in ast.walk(tree):
+            if id(n) in allquals[rel] and isinstance(n, ast.FunctionDef):
+                byqual['%s:%s' % (rel, allquals[rel][id(n)][0])] = n
+    for rel, tree in trees.items():
+        quals = allquals[rel]
         funcs = [n for n in ast.walk(tree) if isinstance(n, (ast.FunctionDef,))]
         # innermost enclosing function for every introspectable(...) call
         for fn in funcs:
@@ -205,10 +268,41 @@ def extract(src_root):
                         problems.append('%s:%s: introspectable() call with unexpected arguments' % (rel, fn.name))
                         continue
                     cat = call.args[0]
+                    template = None
+                    if isinstance(cat, ast.BinOp) and isinstance(cat.op, ast.Mod) and isinstance(cat.left, ast.Constant) \
+                            and isinstance(cat.left.value, str) and cat.left.value.count('%s') == 1 \
+                            and cat.left.value.count('%') == 1 and isinstance(cat.right, ast.Name) and cat.right.id in params:
+                        template = (cat.left.value, cat.right.id)       # category parametrised by a parameter
+                        cat = cat.left
                     if not (isinstance(cat, ast.Constant) and isinstance(cat.value, str)):
                         problems.append('%s:%s: category is not a string literal' % (rel, fn.name))
                         continue
-                    site = {'file': rel, 'func': fn.name, 'var': var, 'category': cat.value,
+                    qual, chain = quals[id(fn)]
+                    outer = chain[0] if chain else fn
+                    am = _is_action_method(fn) or any(_is_action_method(f2) for f2 in chain)
+                    via = []
+                    if not am:
+                        for dq in HELPERS.get('%s:%s' % (rel, qual), []):
+                            d = byqual.get(dq)
+                            calls = d is not None and any(
+                                isinstance(x, ast.Call) and isinstance(x.func, ast.Attribute) and x.func.attr == fn.name
+                                for x in ast.walk(d))
+                            if d is None or not _is_action_method(d) or not calls:
+                                problems.append('%s:%s: the directive %s through which this entry is made is missing, is not '
+                                                'an action method, or no longer calls it' % (rel, qual, dq))
+                                via = []
+                                break
+                            via.append(dq)
+                        am = bool(via)
+                        if not am:
+                            problems.append('%s:%s builds an introspectable but is not an action method (the entry would '
+                                            'not point at the statement)' % (rel, qual))
+                    reg = _registered(outer, var)
+                    if not reg:
+                        problems.append('%s:%s: introspectable %s is never passed to an action (introspectables=)'
+                                        % (rel, qual, var))
+                    site = {'file': rel, 'func': fn.name, 'qual': qual, 'var': var, 'category': cat.value,
+                            'template': template, 'action_method': am, 'registered': reg,
                             'discriminator': ast.unparse(call.args[1]), 'title': ast.unparse(call.args[2]),
                             'type_name': ast.unparse(call.args[3]), 'params': params, 'keys': [],
                             'updates': [], 'relates': [], 'line': n.lineno}
@@ -284,7 +378,29 @@ def extract(src_root):
             for site in sites_here:
                 del site['_node']
             sites += sites_here
-    return sites, problems
+    # a category parametrised by a parameter: one row per literal value the callers pass
+    out = []
+    for site in sites:
+        tp = site.pop('template')
+        if tp is None:
+            out.append(site)
+            continue
+        fmt, pname = tp
+        pos = site['params'].index(pname)
+        vals = []
+        for rel, tree in trees.items():
+            for x in ast.walk(tree):
+                if isinstance(x, ast.Call) and isinstance(x.func, ast.Attribute) and x.func.attr == site['func']:
+                    a = x.args[pos] if len(x.args) > pos else next((kw.value for kw in x.keywords if kw.arg == pname), None)
+                    if isinstance(a, ast.Constant) and isinstance(a.value, str):
+                        vals.append(a.value)
+                    else:
+                        problems.append('%s: a call of %s passes a non-literal %s' % (rel, site['func'], pname))
+        if not vals:
+            problems.append('%s:%s: no caller found for the parametrised category' % (site['file'], site['func']))
+        for v in sorted(set(vals)):
+            out.append(dict(site, category=fmt % v, keys=list(site['keys'])))
+    return out, problems
 
 
 if __name__ == '__main__':
